@@ -119,7 +119,92 @@ async fn abandoned_rpc(
     }
 }
 
+/// An early call stays in flight while `between` further calls come and go on the same connection
+/// (more than the concurrent-stream limit in total, never more than 3 at once); then the early
+/// call is abandoned. Its handler must be dropped promptly, and only its handler.
+async fn scenario_late(sim: Arc<Sim>, unit: Value) -> Obs {
+    let mut o = Obs::default();
+    let between = unit["between"].as_u64().unwrap() as usize;
+    let bidi = unit["bidi_limit"].as_u64();
+    let a = sim.start(&NodeSpec::new(1).config(cfg2(bidi, None))).unwrap();
+    let b = sim.start(&NodeSpec::new(2).config(cfg2(bidi, None))).unwrap();
+    let (na, nb) = (sim.node_of(&a), sim.node_of(&b));
+    sim.fabric.set_latency_us(na, nb, LAT_US);
+    sim.fabric.set_latency_us(nb, na, LAT_US);
+    if let Err(e) = a.connect(b.local_addr()).await {
+        o.violations.push(("setup".into(), format!("connect: {e}")));
+        return o;
+    }
+    tokio::time::sleep(ms(50)).await;
+    let reverse = unit["reverse"].as_bool().unwrap_or(false);
+    let (caller, callee) = if reverse { (&b, &a) } else { (&a, &b) };
+    // the early call: its handler never finishes
+    let early = RpcSpec::new("early").route("/early").header("never", "1").body(pattern_body(1, 30));
+    let (sim2, c2, to2, early2) = (sim.clone(), caller.clone(), callee.peer_id(), early.clone());
+    let early_task = tokio::spawn(async move { do_rpc(&sim2, &c2, to2, &early2).await });
+    tokio::time::sleep(ms(20)).await;
+    if sim.svc.started("early") != 1 {
+        o.violations.push(("setup".into(), "the early call did not reach its handler".into()));
+    }
+    // a bystander that is started exactly `limit` calls after the early one and stays in flight
+    let limit = bidi.unwrap_or(100) as usize;
+    let mut bystander = None;
+    for i in 0..between {
+        if i + 1 == limit {
+            let by = RpcSpec::new("bystander").route("/by").header("gate", "by").body(pattern_body(2, 30));
+            let (sim3, c3, to3, by2) = (sim.clone(), caller.clone(), callee.peer_id(), by.clone());
+            bystander = Some((by, tokio::spawn(async move { do_rpc(&sim3, &c3, to3, &by2).await })));
+            tokio::time::sleep(ms(12)).await;
+            continue;
+        }
+        let spec = RpcSpec::new(&format!("q{i}")).route("/q").body(pattern_body(i as u64, 10));
+        match tokio::time::timeout(ms(5_000), do_rpc(&sim, caller, callee.peer_id(), &spec)).await {
+            Ok(r) => {
+                if let Err(e) = r.result.map_err(|e| e.to_string()).and_then(|ok| check_response(&spec, &ok, callee.peer_id())) {
+                    o.violations.push(("later-rpc-fails".into(), format!("call {i} of {between} between the early call and its abandonment failed: {e}")));
+                    break;
+                }
+            }
+            Err(_) => {
+                o.violations.push(("later-rpc-blocked".into(), format!("call {i} of {between} between the early call and its abandonment did not complete")));
+                break;
+            }
+        }
+    }
+    // now abandon the early call
+    let t_abandon = sim.now_us();
+    early_task.abort();
+    tokio::time::sleep(ms(40)).await;
+    match sim.svc.dropped_at("early") {
+        Some(d) if d <= t_abandon + LAT_US + 3_000 => {}
+        other => o.violations.push(("handler-not-cancelled".into(), format!("an early call was abandoned at {t_abandon}us after {between} later calls on the connection (stream limit {limit}): its handler was dropped at {other:?}"))),
+    }
+    if let Some((by, task)) = bystander {
+        if sim.svc.dropped_at("bystander").is_some() {
+            o.violations.push(("sibling-affected".into(), format!("abandoning the early call dropped the handler of another call in flight (started {limit} calls later)")));
+        }
+        sim.svc.release("by");
+        match tokio::time::timeout(ms(5_000), task).await {
+            Ok(Ok(r)) => {
+                if let Err(e) = r.result.map_err(|e| e.to_string()).and_then(|ok| check_response(&by, &ok, callee.peer_id())) {
+                    o.violations.push(("sibling-affected".into(), format!("the call in flight next to the abandoned one failed: {e}")));
+                }
+            }
+            _ => o.violations.push(("sibling-affected".into(), "the call in flight next to the abandoned one never completed".into())),
+        }
+    }
+    let running = *sim.svc.inflight.lock().unwrap().get(&if reverse { na } else { nb }).unwrap_or(&0);
+    if running != 0 {
+        o.violations.push(("handler-not-cancelled".into(), format!("{running} handler(s) still executing at the end")));
+    }
+    o.class = format!("late abandon after {}", if between >= limit { "more calls than the stream limit" } else { "a few calls" });
+    o
+}
+
 async fn scenario(sim: Arc<Sim>, unit: Value) -> Obs {
+    if unit["kind"] == "late" {
+        return scenario_late(sim, unit).await;
+    }
     let mut o = Obs::default();
     let bidi = unit["bidi_limit"].as_u64();
     // a long deadline may be in force on the serving side: it must not keep abandoned handlers alive
@@ -308,7 +393,7 @@ impl Check for C12 {
         CheckMeta {
             property: "C12",
             level: "fault_enumeration",
-            rule: "abandon point enumeration: the caller's future is dropped never-polled, after its first poll, after every n-th datagram it sends (small request and a 200 KiB multi-flight request), at every 500 us instant up to completion, and at offsets after the remote handler started; handler instant / 10 ms / never; both call directions; plus histories of 3 x limit abandoned calls with max_concurrent_bidi_streams in {2,4} and 300 with the default 100; the histories also with anemo-tower's per-peer in-flight limit (3, Block and ReturnError) around the services, and with a one-request-at-a-time service (poll_ready backpressure) occupied by the sibling so that the abandoned calls wait for the service; each with a never-abandoned sibling RPC in flight and a fresh RPC afterwards; datagram fates within the deviation bound; distinct = distinct (handlers started, calls finished before the abandon)".into(),
+            rule: "abandon point enumeration: the caller's future is dropped never-polled, after its first poll, after every n-th datagram it sends (small request and a 200 KiB multi-flight request), at every 500 us instant up to completion, and at offsets after the remote handler started; handler instant / 10 ms / never; both call directions; plus histories of 3 x limit abandoned calls with max_concurrent_bidi_streams in {2,4} and 300 with the default 100; the histories also with anemo-tower's per-peer in-flight limit (3, Block and ReturnError) around the services, and with a one-request-at-a-time service (poll_ready backpressure) occupied by the sibling so that the abandoned calls wait for the service; each with a never-abandoned sibling RPC in flight and a fresh RPC afterwards; plus an early call abandoned only after 3 - 230 further calls came and went on its connection (fewer / more than the stream limit), next to a call started exactly one limit later; datagram fates within the deviation bound; distinct = distinct (handlers started, calls finished before the abandon)".into(),
             assumptions: vec!["prompt = one-way latency + 2 ms of virtual time without injected faults; with an injected fault the cancellation may need a retransmission (3.5 s allowed)".into()],
             exhaustive: true,
         }
@@ -348,6 +433,15 @@ impl Check for C12 {
                 for n in (0..=230).step_by(10) {
                     u.push(json!({"kind":"point","reverse":reverse,"handler":"never","body_len":200*1024,"abandons":[ab("datagrams", n)],"bound":1,"fate_budget":40}));
                 }
+            }
+        }
+        // an early call abandoned late: after fewer / more further calls than the stream limit
+        for reverse in [false, true] {
+            for (limit, between) in [(Some(4u64), 3usize), (Some(4), 6), (Some(4), 13), (None, 5), (None, 130), (None, 230)] {
+                if tier == Tier::Quick && reverse && between > 13 {
+                    continue;
+                }
+                u.push(json!({"kind":"late","reverse":reverse,"bidi_limit":limit,"between":between,"bound":0,"fate_budget":0}));
             }
         }
         // histories
